@@ -297,10 +297,10 @@ Qed.
 Lemma chunk_n_concat {A} k (bs : list (list A)) :
   Forall (fun b => length b = k) bs -> chunk_n (length bs) k (concat bs) = bs.
 Proof.
-  induction 1 as [|b bs Hb _ IH]; [reflexivity|]. cbn [length chunk_n concat].
-  rewrite firstn_app, skipn_app, Hb, Nat.sub_diag. cbn [firstn skipn].
-  rewrite <- Hb at 1. rewrite firstn_all, app_nil_r.
-  rewrite <- Hb at 1. rewrite skipn_all. cbn [app]. rewrite IH. reflexivity.
+  induction bs as [|b bs IH]; intro HF; [reflexivity|].
+  inversion HF as [|? ? Hb HF']; subst. cbn [length chunk_n concat].
+  rewrite firstn_app, skipn_app, Nat.sub_diag, firstn_all, skipn_all, firstn_O, skipn_O, app_nil_r.
+  cbn [app]. rewrite IH by exact HF'. reflexivity.
 Qed.
 
 Lemma length_concat_rect {A} h w (m : list (list A)) : rect h w m -> length (concat m) = (h * w)%nat.
